@@ -89,7 +89,8 @@ AttrOr(a, dflt) == IF a = <<-1>> THEN dflt ELSE a
 RECURSIVE Vis(_, _)
 ChildCtx(t, i, ctx) ==
   IF t.tag \in {"mover", "munder", "munderover"} THEN (IF i >= 2 THEN "accent" ELSE "plain")
-  ELSE IF t.tag \in {"msup", "msubsup"} THEN (IF i >= 2 THEN "sup" ELSE "plain")
+  \* (a script element with an empty base is turned into mmultiscripts before the degree normalisation applies)
+  ELSE IF t.tag \in {"msup", "msubsup"} THEN (IF i >= 2 /\ Vis(t.kids[1], "plain") # <<>> THEN "sup" ELSE "plain")
   \* a wrapper whose only visible child is lifted into the wrapper's place (siblings that render nothing disappear)
   ELSE IF t.tag \in Wrappers /\ Cardinality({k \in 1..Len(t.kids) : Vis(t.kids[k], "plain") # <<>>}) <= 1 THEN ctx
   ELSE "plain"
